@@ -26,7 +26,7 @@ func checkC19(c *Ctx) {
 	c.Rule("C19/R6", "sibling recognisers: the new and the legacy 'key: value' line recognisers apply the same predicates (lower-case start, no space/upper in key, ':' after position 0, blank/tab separated value)")
 	c.Rule("C19/R7", "results are immutable: in the legacy reader every write to the current label map happens after the map was replaced by a copy in the same call; labels added by the server (permanent labels) are never set or removed by file content")
 
-	c.Rule("C19/R8", "filter before limit in the upload listing: wherever the listing query is cut with LIMIT n over a per-upload record count that can be zero (the correlated COUNT(*) of the empty-query path), the text before the LIMIT already contains the rCount > 0 condition, so empty or aborted uploads do not use up the n newest slots")
+	c.Rule("C19/R8", "newest first and filter before limit in the upload listing: every LIMIT of the listing query applies to rows ordered by (Day, Seq) descending as numbers; wherever the listing query is cut with LIMIT n over a per-upload record count that can be zero (the correlated COUNT(*) of the empty-query path), the text before the LIMIT already contains the rCount > 0 condition, so empty or aborted uploads do not use up the n newest slots")
 	c.Rule("C19/R9", "the labels the server adds belong to one file (same rule as the per-file clause of C20/R6): the label map handed on with each uploaded part is made per part, or every key set in the loop is set on every path")
 	p := mustLoad(c, loadOpts{}, "./storage/db", "./storage/query", "./storage/benchfmt", "./storage/app", "./storage", "./analysis/app", "./benchfmt")
 	c19Merge(c, p)
@@ -1094,6 +1094,15 @@ func c19Limit(c *Ctx, p *Prog) {
 				seenText[norm] = true
 				n++
 				key := fmt.Sprintf("ListUploads:limit#%d", n)
+				// the rows the LIMIT keeps are the newest: the ORDER BY it applies to orders by (Day, Seq) as numbers
+				oi := strings.LastIndex(norm[:li], "ORDER BY")
+				order := ""
+				if oi >= 0 {
+					order = strings.TrimSpace(norm[oi+len("ORDER BY") : li])
+				}
+				okOrder := strings.HasPrefix(order, "u.Day DESC, u.Seq DESC") || strings.HasPrefix(order, "Day DESC, Seq DESC")
+				c.Check(okOrder, R, key+":newest-first", p.pos(call.Pos()), "the limited rows are ordered by day and sequence number, newest first",
+					fmt.Sprintf("the LIMIT cuts rows ordered by %q: upload IDs are day.N compared as text, so with ten or more uploads on one day .9 sorts after .12 and a limited listing returns .9/.8/.7 instead of the newest uploads", order))
 				zi := strings.Index(norm, "COUNT(*) FROM Records r WHERE r.UploadID = u.UploadID")
 				if zi < 0 || zi > li {
 					c.OK(R, key, p.pos(call.Pos()), "the limited rows come from a join that only yields uploads with matching records")
